@@ -130,6 +130,10 @@ class PDFLayoutAnalyzer(PDFTextDevice):
             # do not begin with the `m` operator are invalid.
             pass
 
+        elif shape == "m":
+            # a lone moveto has no segment: nothing is painted
+            pass
+
         elif shape.count("m") > 1:
             # recurse if there are multiple m's in this shape
             for m in re.finditer(r"m[^m]+", shape):
